@@ -186,6 +186,7 @@ REASON_TODO = "check not built yet (work in progress; see DESIGN.md section 8 fo
 
 
 def main():
+    assert sorted(CHECKS) == ["C%02d" % i for i in range(1, 21)], "every property C01..C20 must have an entry: %r" % sorted(CHECKS)
     m = {"version": 1,
          "setup_cmd": "python3 tools/check.py --setup",
          "hooks": {"guard": "QMDNSENGINE_VERIF",
